@@ -192,9 +192,8 @@ class SyncedList(SyncedCollection, MutableSequence):
         """
         data = _convert_numpy(data)
         if _sequence_resolver.get_type(data) == "SEQUENCE":
-            self._update(data)
-            with self._thread_lock:
-                self._save()
+            with self._overwrite_context():
+                self._update(data)
         else:
             raise ValueError(
                 "Unsupported type: {}. The data must be a non-string sequence or None.".format(
@@ -256,9 +255,9 @@ class SyncedList(SyncedCollection, MutableSequence):
             self._data.remove(self._from_base(data=value, parent=self))
 
     def clear(self):  # noqa: D102
-        self._data = []
-        with self._thread_lock:
-            self._save()
+        # Clear in place: the shared-memory buffer holds a reference to _data.
+        with self._overwrite_context():
+            self._data.clear()
 
     def __lt__(self, other):
         if isinstance(other, type(self)):
